@@ -101,6 +101,10 @@ class C06(Property):
             da, db = dict(la), dict(lb)
             best = max(min(da[a], db[a]) for a in common)
             want = set(pu.NAMES[a] for a in common if min(da[a], db[a]) == best)
+        if want is None and not edited:
+            # the responder must refuse the ping outright: no reply, whichever side initiated
+            if outs[3] != "fatal":
+                return "ping without any common cipher (and not both plain) was answered with %s instead of failing cleanly" % outs[3]
         if want is None:
             if done1 or done2:
                 return "handshake completed although the ends share no cipher (and not both allow plain)"
